@@ -834,7 +834,7 @@ fn gen_enum(ctx: &mut Ctx) {
 
 // ---- roots of unity
 
-fn cyclotomic(n: usize) -> Vec<i64> {
+pub fn cyclotomic(n: usize) -> Vec<i64> {
     // Phi_n = (x^n - 1) / prod_{d | n, d < n} Phi_d
     let mut num = vec![0i64; n + 1];
     num[0] = -1;
